@@ -38,7 +38,7 @@ EXPECTED_PROBES = {
 # accidental route (source strategy created under lazily_evaluate_kernels(False), hence a DefaultPredictionStrategy) is
 # inexact on the unchanged tree (fantasy covariance off by up to 2e-3 from scratch), so it cannot be judged soundly.
 FAMILIES = ["default", "default", "default", "default", "kissgp", "multitask", "hadamard", "hadamard"]
-PATTERNS = ["same", "same", "fbatch_per", "fbatch_shared"]
+PATTERNS = ["same", "same", "fbatch_per", "fbatch_shared", "fbatch_expanded"]
 
 
 def generate(rng, tier, index):
@@ -113,7 +113,7 @@ def generate(rng, tier, index):
     ops.append(gen_fant(0))
     ops.append(gen_pred(1))
     while len(ops) < max_len:
-        kinds = [("predict", 4.0), ("fantasize", 3.0), ("drop", 0.4)]
+        kinds = [("predict", 4.0), ("fantasize", 3.0), ("drop", 0.4), ("retrain", 0.8)]
         if faulty:
             kinds.append(("bad_fantasize", 2.0))
         k = core.weighted_choice(rng, kinds)
@@ -123,8 +123,14 @@ def generate(rng, tier, index):
             ops.append(gen_fant())
         elif k == "drop":
             ops.append({"op": "drop", "node": rng.randrange(8)})
+        elif k == "retrain":
+            # the hyper-parameters of ONE model of the tree move (in training mode); its fantasies keep theirs
+            ops.append({"op": "retrain", "node": rng.randrange(8), "seed": rng.randrange(1 << 30)})
         else:
             ops.append(gen_bad())
+    if index % 7 == 3:
+        # stratified: the source keeps training after a fantasy was created and before the fantasy's first prediction
+        ops[1:1] = [gen_fant(0), {"op": "retrain", "node": 0, "seed": rng.randrange(1 << 30)}, gen_pred(1)]
     ops.append(gen_pred())
     core.sticky_bundles(rng, ops)
     if lanczos:
@@ -155,6 +161,7 @@ class Node:
         self.parent = parent
         self.alive = True
         self.iter = False
+        self.sd = None  # the hyper-parameters this model was created with / last retrained to (tracked by the harness)
 
     @property
     def batch(self):
@@ -285,15 +292,20 @@ def fantasy_data(recipe, node, op):
     tasks = recipe.get("tasks") if fam == "multitask" else None
     if pat == "same":
         in_b, tg_b = nb, nb
-    elif pat == "fbatch_per":
+    elif pat in ("fbatch_per", "fbatch_expanded"):
         in_b, tg_b = [f] + nb, [f] + nb
     else:  # fbatch_shared: inputs without the fantasy batch, targets with it
         in_b, tg_b = nb, [f] + nb
-    xf = zoo.rand(op.get("xseed", op["seed"]), *in_b, m, d)
+    if pat == "fbatch_expanded":
+        # the same locations for every fantasy, passed WITH the fantasy dimension as an expanded (stride-0) view -
+        # X.expand(f, m, d) - while targets (and task indices) differ per fantasy
+        xf = zoo.rand(op.get("xseed", op["seed"]), *nb, m, d).expand(*in_b, m, d)
+    else:
+        xf = zoo.rand(op.get("xseed", op["seed"]), *in_b, m, d)
     # targets: a smooth function + per-fantasy noise
     base_x = xf if len(in_b) == len(tg_b) else xf.expand(*tg_b, m, d)
     yf = zoo.make_targets(op["seed"] + 1, base_x, tasks=tasks)
-    if pat == "fbatch_shared":
+    if pat in ("fbatch_shared", "fbatch_expanded"):
         yf = yf + 0.5 * zoo.randn(op["seed"] + 4, *yf.shape)
     inputs_f = [xf]
     if fam == "hadamard":
@@ -342,6 +354,7 @@ def execute(history):
         root_sd = {k: v.detach().clone() for k, v in root.state_dict().items()}
         fixed = root.likelihood.noise_covar.noise.detach().clone() if recipe["lik"].startswith("fixed") else None
         nodes = [Node(root, tuple(t.detach().clone() for t in root.train_inputs), root.train_targets.detach().clone(), fixed, 0, None)]
+        nodes[0].sd = root_sd
         sketch = []
         created = predicted_fantasy = False
 
@@ -359,7 +372,7 @@ def execute(history):
             if k == "predict":
                 args = test_args(recipe, op, node)
                 rm = predict(M, args, op, grad=op.get("grad", False))
-                R = scratch_model(recipe, root_sd, node)
+                R = scratch_model(recipe, node.sd, node)
                 rr = predict(R, args, op)
                 out.stats["oracle_comparisons"] += 1
                 cls = {"family": fam, "depth": min(node.depth, 2), "lik": recipe["lik"], "quantity": None}
@@ -396,6 +409,17 @@ def execute(history):
                     predicted_fantasy = True
                     out.stats["probe:fantasy_predicted"] += 1
                 tag = "predict[d%d,%s]" % (min(node.depth, 2), "fpv" if bundles.has(op.get("bundle", []), "fast_pred_var", state=True) else "std")
+            elif k == "retrain":
+                M.train()
+                M.likelihood.train()
+                zoo.randomise_parameters(M, op["seed"], scale=0.5)
+                M.eval()
+                M.likelihood.eval()
+                node.sd = {kk: v.detach().clone() for kk, v in M.state_dict().items()}
+                out.stats["probe:node_retrained_d%d" % min(node.depth, 2)] += 1
+                if any(n.alive and n.parent is node for n in nodes):
+                    out.stats["fault:source_retrained_while_fantasies_alive"] += 1
+                tag = "retrain[d%d]" % min(node.depth, 2)
             elif k == "drop":
                 if node.depth > 0:
                     node.alive = False
@@ -477,6 +501,7 @@ def execute(history):
                         failed=bool(failed),
                     )
                 if new_node is not None:
+                    new_node.sd = node.sd  # "the same hyperparameters": those of the source at the creation
                     nodes.append(new_node)
                     created = True
                     out.stats["probe:fantasy_created"] += 1
@@ -484,7 +509,7 @@ def execute(history):
                     out.stats["probe:fantasy_created:%s:%s%s" % (fam, recipe["lik"], ":batch" if recipe.get("batch") else "")] += 1
                     if new_node.depth >= 2:
                         out.stats["probe:fantasy_of_fantasy"] += 1
-                    check_fantasy_object(out, i, recipe, root_sd, new_node, op, tol, lanczos=bool(history.get("header", {}).get("lanczos")))
+                    check_fantasy_object(out, i, recipe, new_node.sd, new_node, op, tol, lanczos=bool(history.get("header", {}).get("lanczos")))
             else:
                 raise core.HarnessError("unknown op " + k)
             out.transitions.add("%s|d%d->%s" % (fam, min(node.depth, 2), tag))
